@@ -1401,7 +1401,10 @@ def register_short_tip(R):
             t = K["raw_tree"](S)
             log = []
             cb = S.callback("callback", lambda E, a, kw: log.append(list(a)))
-            me = S.obj(CutShortTipBranch, thre=S.real("thre"), callbacks=PList([cb]))
+            cbs = PList([cb])
+            cbs.frozen = True  # _leave must not touch the callback list or its own object (CutShortTipBranch.__call__ relies on it)
+            me = S.obj(CutShortTipBranch, thre=S.real("thre"), callbacks=cbs)
+            me.frozen = True
             items = []
             for j in range(k):  # every child result is None (no tip chain below that child) or (length to the tip, handle of the child)
                 if S.eng.branch(S.bool(f"child{j}_has_no_tip_chain")):
